@@ -254,5 +254,29 @@ def r6_copy_discipline(chk: Check) -> None:
         chk.decide(bool(cs) and unparse(kwarg(cs[0], "is_response_schema")) == "True", "C04.R6", f, "response schemas converted with is_response_schema=True", "response schemas are converted as request schemas (readOnly stripped instead of writeOnly)", f.loc())
 
 
+def r7_total_status_expansion(chk: Check) -> None:
+    chk.rule("C04.R7", "TOTAL(expand_status_code over the keys of a `responses` object): besides status patterns (`200`, `2XX`) a responses object may legally carry `default` and `x-...` extension keys; the expansion the four conformance checks (and the state machine) feed those keys to must not raise on them - its int(...) conversion is guarded by a digits test or a ValueError handler", floor=1)
+    P = chk.project
+    fn = P.func("specs/openapi/utils.py:expand_status_code")
+    g = cfg_of(fn)
+    ints = [c for c in body_calls(fn) if isinstance(c.func, ast.Name) and c.func.id == "int"]
+    if not ints:
+        chk.ok("C04.R7", fn, "no partial conversion in expand_status_code", "", fn.loc())
+        return
+    for c in ints:
+        construct = f"{unparse(c, 40)} is guarded against non-status keys"
+        in_try = any(isinstance(a, ast.Try) and any(is_within(c, s_) for s_ in a.body) and any(set(x.rsplit(".", 1)[-1] for x in handler_classes(h)) & {"ValueError", "Exception"} for h in a.handlers) for a in ancestors(c))
+        facts = known_conditions(g, g.stmt_nodes_containing(c))
+        digit_test = any(("isdigit" in k or "isdecimal" in k or "fullmatch" in k or "match(" in k or "is_status_code" in k) for k in facts)
+        # or an early `return` guarded by such a test anywhere before the loop (generator functions: `return` ends it)
+        early = any(isinstance(t, ast.If) and any(w in unparse(t.test, 300) for w in ("isdigit", "isdecimal", "fullmatch", "match(")) and any(isinstance(x, ast.Return) for x in t.body) for t in walk_body(fn.node))
+        if in_try or digit_test or early:
+            chk.ok("C04.R7", fn, construct, "ValueError handled" if in_try else "digits test", fn.loc(c))
+        else:
+            chk.violation("C04.R7", fn, construct,
+                          "every character that is not `X` is kept and the result goes to int(): for the legal responses keys `x-internal-note` / `default` this raises ValueError inside status_code_conformance, content_type_conformance, response_headers_conformance and response_schema_conformance (`Runtime Error` instead of a verdict) and inside state-machine construction",
+                          fn.loc(c))
+
+
 def rules(tier: str) -> list:  # type: ignore[type-arg]
-    return [r1_status_lookup, r2_media_type, r3_collected_raise, r4_run_checks, r5_registered, r6_copy_discipline]
+    return [r1_status_lookup, r2_media_type, r3_collected_raise, r4_run_checks, r5_registered, r6_copy_discipline, r7_total_status_expansion]
